@@ -20,6 +20,11 @@ from . import common as cm
 
 REQ = ["AutoImp.World", "AutoImp.Needs", "AutoImp.TryImport", "AutoImp.AutoImport", "AutoImp.Wire"]
 
+ANCHORS = ["pyflyby._autoimp:symbol_needs_import", "pyflyby._autoimp:get_known_import", "pyflyby._autoimp:_try_import",
+           "pyflyby._autoimp:auto_import_symbol", "pyflyby._autoimp:auto_import", "pyflyby._autoimp:find_missing_imports",
+           "pyflyby._autoimp:ScopeStack.__init__", "pyflyby._importdb:ImportDB.by_fullname_or_import_as.func",
+           "pyflyby._modules:ModuleHandle.exists.func", "pyflyby._modules:ModuleHandle.ancestors.func"]
+
 TOPS = ["pa", "pb", "qa", "ma"]
 SUBS = ["sa", "sb"]
 ATTR = ["xa", "xb"]
@@ -31,25 +36,44 @@ BUILTINS_USED = ["len", "id"]
 # ---------------------------------------------------------------------------------------------
 # generators
 
+# what the body of a module that "raises" does.  _try_import / ModuleHandle.exists catch `Exception`:
+# every kind below must be treated alike (recorded in _IMPORT_FAILED, never attempted again)
+RAISE_KINDS = ["RuntimeError", "SyntaxError", "SyntaxError", "ImportError", "ModuleNotFoundError", "ZeroDivisionError",
+               "badsibling", "badfile", "AttributeError", "KeyError"]
+
+
+def rk(r, p):
+    return r.choice(RAISE_KINDS) if r.random() < p else False
+
+
 def gen_world(r, clash):
     mods = {}
     for top in TOPS:
         if r.random() < 0.8:
             pkg = r.random() < 0.6
-            mods[top] = dict(pkg=pkg, attrs=[a for a in ATTR if r.random() < .5], raises=r.random() < .12)
+            mods[top] = dict(pkg=pkg, attrs=[a for a in ATTR if r.random() < .5], raises=rk(r, .15))
             if pkg:
                 for s in SUBS:
                     if r.random() < .6:
                         pk2 = r.random() < .3
                         d = top + "." + s
-                        mods[d] = dict(pkg=pk2, attrs=[a for a in ATTR if r.random() < .5], raises=r.random() < .15)
+                        mods[d] = dict(pkg=pk2, attrs=[a for a in ATTR if r.random() < .5], raises=rk(r, .17))
                         if pk2 and r.random() < .7:
-                            mods[d + ".sb"] = dict(pkg=False, attrs=["xa"], raises=r.random() < .1)
+                            mods[d + ".sb"] = dict(pkg=False, attrs=["xa"], raises=rk(r, .1))
                         if clash and r.random() < .5:
                             mods[top]["attrs"].append(s)        # static attribute spelled like the submodule
             elif r.random() < .15:
                 # a file below a non-package: never importable
                 mods[top + ".sa"] = dict(pkg=False, attrs=["xa"], raises=False)
+    return mods
+
+
+def close_world(mods):
+    """drop entries whose parent is not in the universe (a directory without __init__.py would be a
+    namespace package on disk, which the World model does not have)"""
+    for d in sorted(mods, key=lambda x: x.count(".")):
+        if "." in d and d.rsplit(".", 1)[0] not in mods:
+            del mods[d]
     return mods
 
 
@@ -101,6 +125,21 @@ WRAP = ["%s", "%s", "%s", "(%s)", "f(%s)" , "(lambda: %s)", "[%s for _ in ()]", 
 
 def gen_code(r, mods, db):
     names = [pick_name(r, mods, db) for _ in range(r.randint(1, 3))]
+    if r.random() < .3:
+        # several missing names that resolve to ONE import statement (db `import widget`, code
+        # `widget.alpha + widget.beta`): a failure for the first must not be attempted for the second
+        base = None
+        raising = [d for d in sorted(mods) if mods[d]["raises"]]
+        if db and r.random() < .5:
+            base = r.choice(db)[1]
+        elif raising and r.random() < .7:
+            base = r.choice(raising)
+        elif mods:
+            base = r.choice(sorted(mods))
+        if base:
+            tails = r.sample(ATTR + SUBS + [NEVER], r.randint(2, 3))
+            names = [base + "." + t for t in tails] + names[:1]
+            return r.choice([" + ", " , "]).join(names)
     parts = []
     for n in names:
         w = r.choice(WRAP)
@@ -111,6 +150,20 @@ def gen_code(r, mods, db):
 
 
 BAD_CODE = ["pa.sa +", "(", "pa qa", "import", "pa..sa", "1 +* 2", "def"]
+
+# near-valid forms: an otherwise valid snippet that does not compile only because of its surroundings
+BAD_WRAP = [" %s", "\t%s", "  %s", "\n %s", "%s\n  %s", "%s \\", "(%s", "%s)", "[%s", "%s]", "%s +", "%s,,", "%s = ",
+            ";%s", "%s.", ".%s", "%s if", "if %s", "while", "%s\n\tx", " %s\n", "%s $", "%s ?", "return %s\n )"]
+# harmless surroundings: these DO compile and must behave like the bare snippet
+OK_WRAP = ["%s ", "%s\n", "%s;", "%s  # c", "\n%s", "%s\n\n", "(%s)\n", "%s\t", "\\\n%s"]
+
+
+def gen_bad_code(r, mods, db):
+    if r.random() < .25:
+        return r.choice(BAD_CODE)
+    w = r.choice(BAD_WRAP)
+    base = gen_code(r, mods, db)
+    return w.replace("%s", base)
 
 
 def gen_ns(r, mods, nlevels, exotic):
@@ -184,14 +237,56 @@ def gen_case(seed, i):
         if ops and r.random() < .15:
             # the user deletes a name between two calls (`del x`), same cell or not
             ops.append({"op": "del", "lvl": r.randrange(nlev), "key": r.choice(TOPS + ALIAS + ATTR)})
-        if r.random() < (.12 if boundary else .04):
-            ops.append({"op": "call", "code": r.choice(BAD_CODE)})
+        if r.random() < (.2 if boundary else .1):
+            ops.append({"op": "call", "code": gen_bad_code(r, mods, db)})
         elif ops and r.random() < .2 and any(o["op"] == "call" for o in ops):
             ops.append(dict(r.choice([o for o in ops if o["op"] == "call"])))      # same code again (same cell or not)
         else:
-            ops.append({"op": "call", "code": gen_code(r, mods, db)})
+            code = gen_code(r, mods, db)
+            if r.random() < .15:
+                code = r.choice(OK_WRAP) % code
+            ops.append({"op": "call", "code": code})
     return {"i": i, "stream": stream, "mods": mods, "db": db, "forget": forget, "nss": nss,
             "preload": preload, "ops": ops}
+
+
+def gen_shadow_case(seed, i):
+    """an OUTER namespace binds N to the real module N, the code reads an attribute the module lacks,
+    and the DB offers a different object under the name N (`from compat import N`): nothing may be
+    bound in the target namespace (it would shadow N with a different object)."""
+    r = cm.rng(seed, "c06-shadow", i)
+    mods = gen_world(r, clash=False)
+    N = r.choice(TOPS)
+    M = r.choice([t for t in TOPS if t != N])
+    mods[N] = dict(pkg=r.random() < .5, attrs=[a for a in ATTR if r.random() < .4], raises=False)
+    for d in [d for d in mods if d.startswith(N + ".")]:
+        if not mods[N]["pkg"] or r.random() < .5:
+            del mods[d]
+    close_world(mods)
+    mods[M] = dict(pkg=True, attrs=sorted(set(mods.get(M, {}).get("attrs", [])) | {"xa"}), raises=False)
+    k = r.random()
+    if k < .4:
+        db = [[M + ".xa", N]]                                   # from M import xa as N
+    elif k < .7:
+        mods[M + "." + N] = dict(pkg=False, attrs=["xa"], raises=False)
+        db = [[M + "." + N, N]]                                 # from M import N   (a submodule called N)
+    else:
+        db = [[M, N]]                                           # import M as N
+    if r.random() < .4:
+        db += [e for e in rand_db(r, mods) if e[1] != N and not e[0].startswith(N + ".") and e[0] != N][:2]
+    nlev = r.choice([2, 2, 3])
+    nss = [dict() for _ in range(nlev)]
+    nss[r.randrange(nlev - 1)][N] = "mod:" + N                   # an outer level, never the target
+    if r.random() < .3:
+        nss[-1][r.choice(ALIAS + ATTR)] = "ext:1"
+    missing_attr = [a for a in ATTR + SUBS + [NEVER] if a not in mods[N]["attrs"] and (N + "." + a) not in mods]
+    a = r.choice(missing_attr)
+    codes = [N + "." + a, "%s.%s + 1 , %s" % (N, a, r.choice([M, N, "len"])), "(lambda: %s.%s.xb)" % (N, a)]
+    ops = [{"op": "call", "code": r.choice(codes)}]
+    if r.random() < .5:
+        ops += [{"op": "newcell"}, {"op": "call", "code": r.choice(codes)}]
+    return {"i": i, "stream": "shadow", "mods": mods, "db": db, "forget": [], "nss": nss,
+            "preload": [N], "ops": ops}
 
 
 def gen_f21_case(seed, i):
@@ -223,12 +318,21 @@ class Ext(object):
 
 
 def write_world(root, mods):
+    with open(os.path.join(root, "vbadsyn.py"), "w") as f:
+        f.write("x = (\n")
     for d, m in mods.items():
         path = os.path.join(root, *d.split("."))
         src = "__import__('builtins')._verif_log.append(['exec', __name__])\n"
         src += "".join("%s = 'val:%s.%s'\n" % (a, d, a) for a in m["attrs"])
-        if m["raises"]:
-            src += "raise RuntimeError('boom')\n"
+        kind = m["raises"]
+        if kind is True:
+            kind = "RuntimeError"
+        if kind == "badsibling":
+            src += "import vbadsyn\n"                       # a sibling that does not compile: SyntaxError
+        elif kind == "badfile":
+            src = "def (:\n"                                 # the file itself does not compile (body never runs)
+        elif kind:
+            src += "raise %s('boom')\n" % kind
         if m["pkg"]:
             os.makedirs(path, exist_ok=True)
             with open(os.path.join(path, "__init__.py"), "w") as f:
@@ -324,7 +428,21 @@ def child_main(case, root):
         same = (list(before.keys()) == list(namespace.keys())[:len(before)]
                 and all(namespace[k] is v for k, v in before.items()))
         added = [k for k in namespace if k not in before]
-        rec["try"].append({"imp": str(Import(imp)), "res": bool(res), "preserved": same, "added": added,
+        yielded = True
+        if res and added:
+            # C06 oracle: the new binding is what executing this very statement yields (checked now, in
+            # a forked copy: a later import of the same call may change what the statement would yield)
+            stmt = str(Import(imp))
+
+            def probe():
+                scratch = {}
+                exec(stmt, scratch)
+                for k in added:
+                    if k not in scratch or scratch[k] is not namespace.get(k):
+                        return "binding %r is not what %r yields" % (k, stmt)
+                return True
+            yielded = _in_grandchild(probe)
+        rec["try"].append({"imp": str(Import(imp)), "res": bool(res), "preserved": same, "added": added, "yielded": yielded,
                            "executed": len(rec["exec"]) - n_exec,
                            "in_failed": Import(imp) in A._IMPORT_FAILED,
                            "target_is_last": namespace is nss[-1]})
@@ -410,7 +528,8 @@ def child_main(case, root):
                     step["missing_after"] = [str(x) for x in orig_fmi(code, nss)]
                 except BaseException as e:
                     step["missing_after"] = "EXC " + type(e).__name__
-            step["values_ok"] = value_probe(case, step, nss, idx if not isinstance(out["index"], str) else {})
+            bad_y = [t["yielded"] for t in rec["try"] if t["yielded"] is not True]
+            step["values_ok"] = bad_y[0] if bad_y else True
         step["st"] = snapshot()
         out["steps"].append(step)
         for ns in nss:
@@ -459,24 +578,6 @@ def exec_probe(code, nss):
         except BaseException:
             return None
         return None
-    return _in_grandchild(fn)
-
-
-def value_probe(case, step, nss, idx):
-    """C06 oracle: every added binding is what executing its import statement yields:
-    re-execute, in a scratch dict, the statement recorded by the _try_import wrapper."""
-    todo = [t for t in step["try"] if t["res"] and t["added"]]
-    if not todo:
-        return True
-
-    def fn():
-        for t in todo:
-            scratch = {}
-            exec(t["imp"], scratch)
-            for k in t["added"]:
-                if k not in scratch or scratch[k] is not nss[-1].get(k):
-                    return "binding %r is not what %r yields" % (k, t["imp"])
-        return True
     return _in_grandchild(fn)
 
 
@@ -689,6 +790,15 @@ def spelled_names(code):
     return chains, ids
 
 
+def compiles(code):
+    """the property's "code that does not parse": decided by CPython on the ORIGINAL string"""
+    try:
+        compile(code, "<snippet>", "exec", dont_inherit=True)
+        return True
+    except (SyntaxError, ValueError):
+        return False
+
+
 def prefixes(d):
     p = d.split(".")
     return [".".join(p[:i]) for i in range(1, len(p) + 1)]
@@ -726,7 +836,7 @@ def is_rebind_same(case, step, prev):
     return True
 
 
-def oracle(ctx, prop, case, im):
+def oracle(ctx, prop, case, im, wfp=False):
     """returns list of (clause, detail); known findings are reported through ctx.known_hit"""
     bad = []
     prev = im["init"]
@@ -740,6 +850,8 @@ def oracle(ctx, prop, case, im):
             continue
         code = o["code"]
         chains, ids = spelled_names(code)
+        if chains is not None and not compiles(code):
+            chains, ids = None, None
         cur = st["st"]
         if isinstance(st["r"], str):
             if is_f21(case, st):
@@ -794,7 +906,10 @@ def oracle(ctx, prop, case, im):
                 else:
                     bad.append(("success_resolves", "call %d: auto_import(%r) returned True but executing it raises NameError: %s" % (k, code, st["nameerror"])))
             if st["r"] is True and st["missing_after"]:
-                if has_dotted_key(case, prev):
+                if wfp:
+                    # C07_success_resolves_wf applies (initial state WF, world without clash; WF is preserved)
+                    bad.append(("success_resolves_wf", "call %d: well-formed state, auto_import(%r) returned True but afterwards %r still need import" % (k, code, st["missing_after"])))
+                elif has_dotted_key(case, prev):
                     pass
                 elif is_f07a(case, st) and not isinstance(st["missing_after"], str):
                     ctx.known_hit("F07a", "after a True result find_missing_imports(code) is not empty: a value attribute was replaced by the same-named submodule during the call")
@@ -835,6 +950,13 @@ def oracle(ctx, prop, case, im):
 
 # ---------------------------------------------------------------------------------------------
 
+def drop_badfile(case, st):
+    bad = {d for d, m in case["mods"].items() if m["raises"] == "badfile"}
+    if bad:
+        st = dict(st, log=[e for e in st["log"] if not (e[0] == "exec" and e[1] in bad)])
+    return st
+
+
 def compare_case(ctx, prop, case, im, mv, nm):
     ok = True
     if "__exc__" in im or "__timeout__" in im:
@@ -844,13 +966,13 @@ def compare_case(ctx, prop, case, im, mv, nm):
     if im["index"] != mi:
         ctx.disagreement("by_fullname_or_import_as", case, im["index"], mi)
         ok = False
-    a, b = canon_impl_state(case, im["init"]), d_state(nm, mv["init"])
+    a, b = drop_badfile(case, canon_impl_state(case, im["init"])), drop_badfile(case, d_state(nm, mv["init"]))
     if a != b:
         ctx.disagreement("initial state (World.load)", case, a, b)
         return False
     for k, (st, ms) in enumerate(zip(im["steps"], mv["steps"])):
-        a = canon_impl_state(case, st["st"])
-        b = d_state(nm, ms["st"])
+        a = drop_badfile(case, canon_impl_state(case, st["st"]))
+        b = drop_badfile(case, d_state(nm, ms["st"]))
         ra = {True: "true", False: "false", "EXC AssertionError": "crash"}.get(st.get("r"), st.get("r")) if st["op"] == "call" else None
         rb = ms["r"]
         if ra != rb or a != b:
@@ -862,11 +984,17 @@ def compare_case(ctx, prop, case, im, mv, nm):
 
 
 def run_shared(ctx, prop, n=None, nf21=None):
-    n = n if n is not None else int(os.environ.get("VERIF_C06_N", 0)) or (600 if ctx.quick else 12000)
+    cm.check_anchors(ctx, ANCHORS)
+    n = n if n is not None else int(os.environ.get("VERIF_C06_N", 0)) or (1200 if ctx.quick else 20000) * ctx.scale
     nf21 = nf21 if nf21 is not None else (12 if ctx.quick else 200)
+    nshadow = max(4, n // 12)
     ctx.coverage["rule"] = ("call sequences from one seeded PRNG over a synthetic universe on disk (4/5 main stream, 1/5 boundary "
                             "stream: attribute/submodule clashes, dotted keys in namespaces, failing pre-imports, more unparsable code) "
-                            "+ a small stream with __forget_imports__ (F21); non-trivial = some call imported something or reported failure; "
+                            "+ a stream where an outer namespace binds a module and the DB offers a different object under that name "
+                            "+ a small stream with __forget_imports__ (F21); modules raise RuntimeError / SyntaxError (raised, from a sibling that does "
+                            "not compile, or their own file not compiling) / ImportError / ModuleNotFoundError / ZeroDivisionError / AttributeError / KeyError; "
+                            "several missing names resolving to one import statement; near-valid unparsable snippets (leading indentation, trailing "
+                            "backslash, unbalanced brackets, dangling operators); non-trivial = some call imported something or reported failure; "
                             "distinct by hash of the case")
     ctx.assumptions += [
         "World (load / exec_import / find_spec) is an oracle for CPython's import system on a universe of plain modules; it is compared with the real import system after every call (sys.modules, module attributes, executed bodies)",
@@ -874,7 +1002,8 @@ def run_shared(ctx, prop, n=None, nf21=None):
         "which alphabet names are builtins is taken from the running interpreter",
     ]
     ctx.notes["trusted_base"] = ["one interpreter state per case is obtained by fork() of a worker that has imported only pyflyby and the harness"]
-    cases = cm.load_corpus(prop) + [gen_case(ctx.seed, i) for i in range(n)] + [gen_f21_case(ctx.seed, i) for i in range(nf21)]
+    cases = (cm.load_corpus(prop) + [gen_case(ctx.seed, i) for i in range(n)]
+             + [gen_shadow_case(ctx.seed, i) for i in range(nshadow)] + [gen_f21_case(ctx.seed, i) for i in range(nf21)])
     impl = cm.run_impl("c06", "impl_case", cases, timeout_case=40)
     exprs, nms, idxs = [], [], []
     for ci, (c, im) in enumerate(zip(cases, impl)):
@@ -907,7 +1036,9 @@ def run_shared(ctx, prop, n=None, nf21=None):
         compare_case(ctx, prop, c, im, mv, nm)
         if not mv["wf"]:
             ctx.bump("initial_state_not_wf")
-        for clause, detail in oracle(ctx, prop, c, im):
+        if mv.get("wfp"):
+            ctx.bump("initial_state_wfp")
+        for clause, detail in oracle(ctx, prop, c, im, wfp=bool(mv.get("wfp"))):
             ctx.violation(clause, c, detail)
         nontriv = False
         for st in im["steps"]:
@@ -943,7 +1074,7 @@ def replay_shared(payload, prop):
         out["model"] = {"index": d_index(nm, mv["index"]), "wf": mv["wf"],
                         "steps": [{"r": s["r"], "st": d_state(nm, s["st"])} for s in mv["steps"]]}
         ctx = cm.Ctx(prop, "quick", 0)
-        out["oracle"] = oracle(ctx, prop, case, im)
+        out["oracle"] = oracle(ctx, prop, case, im, wfp=bool(mv.get("wfp")))
         out["known"] = ctx.known_hits
     print(json.dumps(out, indent=1, default=str))
     return 0
